@@ -196,7 +196,11 @@ func loadStateAtHeight(db kaidb.Database, height uint64) *LatestBlockState {
 		panic(fmt.Errorf(`block meta not found at height %v`, height))
 	}
 	state.LastBlockHeight = blockMeta.Header.Height
-	state.LastBlockID = blockMeta.BlockID
+	if height > 0 {
+		// the genesis state has the zero block id (MakeGenesisState); block 1 is
+		// validated against it, so a reload at height 0 must not replace it
+		state.LastBlockID = blockMeta.BlockID
+	}
 	state.LastBlockTime = blockMeta.Header.Time
 	state.LastBlockTotalTx = blockMeta.Header.NumTxs
 
